@@ -60,8 +60,72 @@ MUTANTS = [
 ]
 
 
+# reverting a fix: commit of /repo must make the check(s) that found the defect fire again
+REVERTS = [
+    ("keep upper bounds when applying queued lower-bound", ["C12", "C05"]),
+    ("queued more than once", ["C12"]),
+    ("piecewise-constant helper big-M", ["C12"]),
+    ("include k = number of edges", ["C03", "C04", "C09"]),
+    ("MinFlowDecomp lower bounds must not count ignored", ["C03"]),
+    ("do not compute flow-safe paths when edges are ignored", ["C03"]),
+    ("min-gen-set lower bound of MinFlowDecomp with ignored", ["C03"]),
+    ("MinPathCover must hand the user's graph", ["C01", "C09"]),
+    ("MinPathCoverCycles with cover_type='node'", ["C01"]),
+    ("keep single-node paths/walks of node-weighted", ["C01"]),
+    ("MinFlowDecompCycles node mode with additional starts", ["C04"]),
+    ("bound the traversals of untrusted edges", ["C04"]),
+    ("MinSetCover without subset_weights", ["C15"]),
+    ("MinGenSet with max_multiplicity > 1", ["C15"]),
+    ("MinGenSet search range and inconclusive", ["C15", "C13"]),
+    ("MinErrorFlow with few_flow_values_epsilon on node-weighted", ["C16"]),
+    ("k-LeastAbsErrors objective value must use the error scaling", ["C07"]),
+    ("do not write model-internal entries into the caller", ["C18"]),
+    ("must not modify the caller's max_edge_repetition_dict", ["C18"]),
+    ("graphs without source or sink must be rejected", ["C19"]),
+    ("kFlowDecomp greedy pre-check must not fail", ["C19"]),
+    ("DAG path models must reject k <= 0", ["C19"]),
+    ("MinFlowDecompCycles must reject a non-conserving flow", ["C19"]),
+    ("greedy solution of node-weighted kFlowDecomp must carry its weights", ["C01"]),
+]
+
+
 def run(cmd, **kw):
     return subprocess.run(cmd, shell=isinstance(cmd, str), capture_output=True, text=True, **kw)
+
+
+def reverts(a):
+    base = tempfile.mkdtemp(prefix="fpverif-rev-", dir="/var/tmp")
+    log = run(["git", "-C", "/repo", "log", "--format=%h %s"]).stdout.strip().splitlines()
+    results = []
+    try:
+        for subj, props in REVERTS:
+            if a.k and a.k not in subj and a.k not in ",".join(props):
+                continue
+            hit = [l for l in log if subj in l]
+            if not hit:
+                print("!! no commit for", subj); continue
+            h = hit[0].split()[0]
+            wt = os.path.join(base, h)
+            run(["git", "-C", "/repo", "worktree", "add", "--detach", wt, "HEAD"])
+            try:
+                r = run(["git", "-C", wt, "revert", "--no-commit", h])
+                if r.returncode != 0:
+                    print(f"!! revert of {h} ({subj}) conflicts with later commits: skipped"); results.append((subj, "CONFLICT", None)); continue
+                for pid in props:
+                    t0 = time.time()
+                    env = dict(os.environ, FPVERIF_REPO=wt)
+                    c = run([os.path.join(ROOT, "check"), pid, a.tier, "--no-evidence"], env=env, cwd=ROOT)
+                    caught = c.returncode == 1 and "VIOLATION property=" + pid in c.stdout
+                    sigs = sorted({l.strip().split("]")[0][1:] for l in c.stdout.splitlines() if l.strip().startswith("[")})
+                    print(f"{'CAUGHT ' if caught else 'MISSED '} revert[{h} {subj[:50]}] by {pid} rc={c.returncode} {time.time()-t0:.0f}s {sigs[:3]}")
+                    results.append((subj, pid, caught))
+            finally:
+                run(["git", "-C", "/repo", "worktree", "remove", "--force", wt])
+    finally:
+        shutil.rmtree(base, ignore_errors=True); run(["git", "-C", "/repo", "worktree", "prune"])
+        shutil.rmtree("/var/tmp/fpverif-mutant-replay", ignore_errors=True)
+    missed = [r for r in results if r[2] is not True]
+    print(f"\n{len(results) - len(missed)} caught, {len(missed)} not caught: {missed}")
 
 
 def main():
@@ -69,7 +133,10 @@ def main():
     ap.add_argument("-k", default="")
     ap.add_argument("--tier", default="quick")
     ap.add_argument("--keep", action="store_true")
+    ap.add_argument("--reverts", action="store_true", help="revert each fix: commit instead of applying the textual mutants")
     a = ap.parse_args()
+    if a.reverts:
+        return reverts(a)
     base = tempfile.mkdtemp(prefix="fpverif-mut-", dir="/var/tmp")
     results = []
     try:
